@@ -289,8 +289,9 @@ static void e2e(void) {
       coap_add_option(p2, COAP_OPTION_URI_PATH, 1, (const uint8_t *)"t");
       printf("TOK2:");
       for (size_t i = 0; i < app_tok2_len; i++) printf("%02x", app_tok2[i]);
+      fputc(' ', stdout);
       int ok2 = coap_add_data_large_request(cs, p2, body2_len, body2, rel_c, NULL);
-      printf(" ADL:%d ", ok2);
+      printf("ADL:%d ", ok2);
       if (ok2) printf("SEND:%d ", coap_send(cs, p2));
       else coap_delete_pdu(p2);
       sent_b = 1;
